@@ -319,8 +319,9 @@ func c06Check(strat workload.Strategy, pathAware bool, r0 map[string]interface{}
 			if f.Kind == workload.FaultBadList {
 				// two coercion failures in one list: elements 1 and 3
 				sp := workload.CanonLite(stripFrag(entryPath(m)))
-				p1 := workload.CanonLite(append(parsePath(f.Path), 1))
-				p3 := workload.CanonLite(append(parsePath(f.Path), 3))
+				bp := workload.BadListPaths(f.Field)
+				p1 := workload.CanonLite(append(parsePath(f.Path), bp[0]...))
+				p3 := workload.CanonLite(append(parsePath(f.Path), bp[1]...))
 				match = !used[i] && strings.Contains(msg, "badLeaf") && (sp == p1 || sp == p3) && !badListSeen[f.Tag+sp]
 				if match {
 					badListSeen[f.Tag+sp] = true
@@ -845,6 +846,11 @@ func (c C06) Run(t *tape.Tape, opt core.RunOpt) (res core.Result) {
 	c06Depth = []int{0, 0, 40, 250}[t.Draw(4)]
 	c06DepthEarly = t.Bool(1, 2)
 	tight := t.Bool(1, 5)
+	if strings.Contains(req.Src, "matrix") {
+		// (lists of lists of scalars use up levels without a resolver invocation
+		// to count: the smallest sufficient limit cannot be found this way)
+		tight = false
+	}
 	if tight {
 		// the smallest limit that still resolves everything the request selects
 		// (the deepest fields are then resolved with exactly one level left):
